@@ -221,6 +221,7 @@ Proof.
   destruct (c <? 128) eqn:E; [|lia].
   unfold can_print. destruct (c <=? 126) eqn:E1; [|lia].
   destruct ((32 <=? c) && negb (c =? 92) && negb (c =? 34)) eqn:E2; [|lia].
+  unfold is_invalid_byte. destruct ((c =? 65533) && (1 <=? 1)) eqn:E3; [lia|]. cbn [negb andb].
   change (Z.to_nat 1) with 1%nat. cbn [firstn skipn app]. rewrite IH; [reflexivity|cbn [length] in Hl; lia|exact Hp].
 Qed.
 
